@@ -160,15 +160,14 @@ def run(pid, tier, seed, replay=None):
         return chk.finish('replay of one recorded case')
     thorough = tier == 'thorough'
     # 1. MC: transcription = reference on the bounded domain
-    chk.mc('mc_a', 'Search_MC.tla', dict(spec='Spec', constants=mc_consts('a', not thorough), invariants=['C17_Scrub']))
-    chk.mc('mc_b1', 'Search_MC.tla', dict(spec='Spec', constants=mc_consts('b1', not thorough), invariants=['C17_Find1', 'C17_Facet']))
-    chk.mc('mc_b2', 'Search_MC.tla', dict(spec='Spec', constants=mc_consts('b2', not thorough), invariants=['C17_Find', 'C17_Pages', 'C17_Facet']))
+    chk.mc('mc', 'Search_MC.tla', dict(spec='Spec', constants=mc_consts('all', not thorough), invariants=['C17_Scrub', 'C17_Find', 'C17_Pages', 'C17_Facet']))
     # 2. GEN: inputs chosen by TLC
-    scrub_cases = gen(chk, 'gen_a', seed, GenPart='"a"', NScrub=0 if thorough else 6000)
     if thorough:
-        db_cases = gen(chk, 'gen_b', seed, GenPart='"b"', NDb=500, NFind=40, NPages_=8, NFacet=8)
+        cases = gen(chk, 'gen', seed, GenPart='"ab"', NScrub=0, NDb=500, NFind=40, NPages_=8, NFacet=8)
     else:
-        db_cases = gen(chk, 'gen_b', seed, GenPart='"b"', NDb=40, NFind=24, NPages_=5, NFacet=5)
+        cases = gen(chk, 'gen', seed, GenPart='"ab"', NScrub=6000, NDb=40, NFind=24, NPages_=5, NFacet=5)
+    scrub_cases = [c for c in cases if c['kind'] == 'a']
+    db_cases = [c for c in cases if c['kind'] == 'b']
     if not scrub_cases or not db_cases:
         raise core.Machinery('generation produced no cases')
     jobs = to_jobs(scrub_cases, db_cases)
